@@ -36,6 +36,10 @@ impl TargetProc {
                 cmd.arg(a.as_str().unwrap_or(""));
             }
         }
+        // "env_clear": the target starts with an empty environment (its /proc/<pid>/environ is empty) plus what "env" lists
+        if cfg.get("env_clear").and_then(|v| v.as_bool()).unwrap_or(false) {
+            cmd.env_clear();
+        }
         if let Some(envs) = cfg.get("env").and_then(|v| v.as_object()) {
             for (k, v) in envs {
                 cmd.env(k, v.as_str().unwrap_or(""));
